@@ -11,7 +11,7 @@ import (
 
 func init() {
 	props["C18"] = c18
-	floors["C18"] = map[string]int{"C18.R1": 6, "C18.R2": 14, "C18.R3": 12, "C18.R4": 4, "C18.R5": 1, "C18.R6": 1, "C18.R7": 3}
+	floors["C18"] = map[string]int{"C18.R1": 6, "C18.R2": 14, "C18.R3": 12, "C18.R4": 4, "C18.R5": 1, "C18.R6": 1, "C18.R7": 3, "C18.R8": 1}
 }
 
 // lockStatesMay computes, before every instruction, the set of locks that may
@@ -455,6 +455,52 @@ func c18(r *Report) {
 		}
 		r.Paths++
 		r.Decide("path", "(*M/trafficshape.Conn).Write: the close action returns ErrForceClose without writing further", ok, "CloseConnection arm returns *ErrForceClose", "after a close action more bytes are written or the error is not ErrForceClose (the proxy would keep the connection)", pos)
+	})
+
+	r.Guard("C18.R8", "the shaped write loop never writes a byte twice: the buffer is advanced past what was written before it is used again", func() {
+		g := G(wr)
+		var writes []*ssa.Call
+		for _, c := range plainCalls(wr, "(*M/trafficshape.Bucket).FillThrottleLocked", "(*M/trafficshape.Bucket).FillThrottle") {
+			if inLoop(c.Block()) {
+				writes = append(writes, c)
+			}
+		}
+		if len(writes) != 1 {
+			r.Undecided("(*M/trafficshape.Conn).Write: throttled write in the loop", fmt.Sprintf("UNRESOLVED: found %d", len(writes)))
+			return
+		}
+		// b lives in a cell (it is captured by the throttle callbacks)
+		isAdvance := func(i ssa.Instruction) bool {
+			st, ok := i.(*ssa.Store)
+			if !ok {
+				return false
+			}
+			sl, ok := st.Val.(*ssa.Slice)
+			if !ok || sl.Low == nil {
+				return false
+			}
+			// b = b[<amount>:] on the cell that holds the parameter b
+			cell, isCell := st.Addr.(*ssa.Alloc)
+			if !isCell {
+				return false
+			}
+			ld, isLd := sl.X.(*ssa.UnOp)
+			return isLd && ld.X == ssa.Value(cell) && cell.Comment == wr.Params[1].Name()
+		}
+		isReuse := func(i ssa.Instruction) bool {
+			if i == ssa.Instruction(writes[0]) {
+				return true
+			}
+			_, y := isCall(i, "(*M/trafficshape.Conn).WriteDefaultBuckets")
+			return y
+		}
+		p := g.PathTo([]ssa.Instruction{writes[0]}, false, isAdvance, isReuse)
+		r.Paths++
+		if p != nil {
+			r.Fail("path", "(*M/trafficshape.Conn).Write: b is advanced past the written bytes before it is written from again", "a path from the throttled write reaches another write of b (the fallback to the default buckets, or the next iteration) without b = b[n:]: the bytes just written are sent a second time", witness(w, p), writes[0].Pos())
+		} else {
+			r.Hold("path", "(*M/trafficshape.Conn).Write: b is advanced past the written bytes before it is written from again", "b = b[max:] lies on every path from the write to the next use of b", writes[0].Pos())
+		}
 	})
 
 	r.Guard("C18.R7", "buckets created for a connection or a shape are closed when it goes away", func() {
